@@ -134,6 +134,10 @@ pub trait MaskObj {
     fn is_bit_dirty(&self, bit: u16) -> bool;
     /// bytes of an SMSG_UPDATE_OBJECT (VALUES) carrying the mask, written by the public writer
     fn carrier(&self) -> Result<Vec<u8>, String>;
+    /// indexed accessor `set_<name>(Default::default(), index)`; None = no such accessor / ordinal out of range
+    fn set_indexed(&mut self, name: &str, ordinal: u16) -> Option<()>;
+    /// Some(is_some) of the indexed getter
+    fn get_indexed(&self, name: &str, ordinal: u16) -> Option<bool>;
 }
 
 pub struct UmKind {
@@ -142,6 +146,8 @@ pub struct UmKind {
     /// (name, signature class, also settable through the builder)
     pub accessors: &'static [(&'static str, &'static str, bool)],
     pub custom: &'static [&'static str],
+    /// accessors taking (value struct, index enum)
+    pub indexed: &'static [&'static str],
     pub new: fn() -> Box<dyn MaskObj>,
     /// Builder::new().set_<name>(val).finalize()
     pub build: fn(&str, u64) -> Option<Box<dyn MaskObj>>,
@@ -190,7 +196,7 @@ macro_rules! um_carrier {
 }
 
 macro_rules! um_kind {
-    ($exp:ident, $T:ident, $B:ident, $V:ident, [$(($get:ident, $set:ident, $sig:ident, $hb:tt)),*], custom: [$($c:expr),*]) => {{
+    ($exp:ident, $T:ident, $B:ident, $V:ident, [$(($get:ident, $set:ident, $sig:ident, $hb:tt)),*], custom: [$($c:expr),*], indexed: [$(($iget:ident, $iset:ident, $ival:ty, $iidx:ident)),*]) => {{
         struct Obj(wow_world_messages::$exp::$T);
         impl MaskObj for Obj {
             fn set(&mut self, name: &str, val: u64) -> bool {
@@ -221,12 +227,30 @@ macro_rules! um_kind {
                     Err(_) => Err("write panicked (size() != bytes written, or bookkeeping assertion)".into()),
                 }
             }
+            fn set_indexed(&mut self, name: &str, ordinal: u16) -> Option<()> {
+                $( if name == stringify!($iget) {
+                    let idx = <wow_world_messages::$exp::$iidx>::try_from(ordinal).ok()?;
+                    self.0.$iset(<$ival>::default(), idx);
+                    return Some(());
+                } )*
+                let _ = ordinal;
+                None
+            }
+            fn get_indexed(&self, name: &str, ordinal: u16) -> Option<bool> {
+                $( if name == stringify!($iget) {
+                    let idx = <wow_world_messages::$exp::$iidx>::try_from(ordinal).ok()?;
+                    return Some(self.0.$iget(idx).is_some());
+                } )*
+                let _ = ordinal;
+                None
+            }
         }
         UmKind {
             exp: stringify!($exp),
             kind: stringify!($T),
             accessors: &[$((stringify!($get), stringify!($sig), $hb)),*],
             custom: &[$($c),*],
+            indexed: &[$(stringify!($iget)),*],
             new: || Box::new(Obj(<wow_world_messages::$exp::$T>::new())),
             build: |name, val| {
                 $( if name == stringify!($get) { return um_kind!(@builder $hb, $exp, $B, $set, $sig, val).map(|m| Box::new(Obj(m)) as Box<dyn MaskObj>); } )*
